@@ -179,6 +179,16 @@ Theorem C17_nmap_iter_cidr : forall pton6 ip_address a b c d p,
 Proof. exact parse_cidr. Qed.
 Print Assumptions C17_nmap_iter_cidr.
 
+(* any '/' specification that succeeds (partial addresses, lenient prefixes, ...) yields, ascending, exactly the
+   addresses of the IPv4 network that IPNetwork(text) denotes, with a prefix 1..32 *)
+Theorem C17_nmap_iter_slash : forall pton6 ip_address s xs,
+  contains_char ch_slash s = true -> parse_nmap_target_spec pton6 ip_address s = (xs, None) ->
+  exists v p, ipnetwork_of_str pton6 s = Ok (4, v, p) /\ 0 <= v < 2 ^ 32 /\ 0 < p <= 32 /\
+              let first := v - v mod 2 ^ (32 - p) in
+              xs = map (fun x => (4, x)) (py_range first (first + 2 ^ (32 - p))).
+Proof. exact parse_slash_ok. Qed.
+Print Assumptions C17_nmap_iter_slash.
+
 (* a text with ':' and no '/': the single address IPAddress() makes of it, or its error *)
 Theorem C17_nmap_iter_colon : forall pton6 ip_address s,
   contains_char ch_slash s = false -> contains_char ch_colon s = true ->
